@@ -1,10 +1,409 @@
-(* C11 -- lemmas about the model of windowed / stateful streams (PV.Model.Window). *)
+(* C11 -- general lemmas about the stream stepping model (PV.Model.Window):
+   list update, guards, "a node whose guard time reached t is frozen", stepping a node whose parent
+   was already stepped, preservation of the number of nodes and of the time bound, runs. *)
 From Coq Require Import ZArith NArith Bool String List Lia.
 Require Import PV.Base.Val PV.Gen.Window PV.Model.Window.
 Import ListNotations.
 Open Scope Z_scope.
+Open Scope list_scope.
 
 (* the regenerated order of effects in WindowedDStream._step is the one the model transcribes:
    guard, advance the guard time, step the parent, append, trim, counter, skip test, union *)
 Lemma win_step_order_ok : win_step_order = [0; 1; 2; 3; 4; 5; 6; 7].
 Proof. reflexivity. Qed.
+
+(* ---------- list update ---------- *)
+Lemma upd_length {A} i (f : A -> A) l : length (upd i f l) = length l.
+Proof. revert i; induction l as [|x l IH]; intros [|i]; simpl; auto. Qed.
+
+Lemma nth_error_upd_eq {A} i (f : A -> A) l x :
+  nth_error l i = Some x -> nth_error (upd i f l) i = Some (f x).
+Proof. revert i; induction l as [|y l IH]; intros [|i] H; simpl in *; try discriminate; auto. congruence. Qed.
+
+Lemma nth_error_upd_neq {A} i j (f : A -> A) l : i <> j -> nth_error (upd i f l) j = nth_error l j.
+Proof.
+  revert i j; induction l as [|y l IH]; intros [|i] [|j] H; simpl; auto; try congruence.
+Qed.
+
+Lemma upd_upd {A} i (a b : A) l : upd i (fun _ => a) (upd i (fun _ => b) l) = upd i (fun _ => a) l.
+Proof. revert i; induction l as [|y l IH]; intros [|i]; simpl; auto. f_equal; auto. Qed.
+
+Lemma put_nodes i n st : gnodes (put i n st) = upd i (fun _ => n) (gnodes st).
+Proof. reflexivity. Qed.
+Lemma put_log i n st : glog (put i n st) = glog st.
+Proof. reflexivity. Qed.
+Lemma put_put i a b st : put i a (put i b st) = put i a st.
+Proof. unfold put, updn; simpl. now rewrite upd_upd. Qed.
+Lemma nth_put_eq i n st x : nth_error (gnodes st) i = Some x -> nth_error (gnodes (put i n st)) i = Some n.
+Proof. intros H. rewrite put_nodes. now rewrite (nth_error_upd_eq _ _ _ _ H). Qed.
+Lemma nth_put_neq i j n st : i <> j -> nth_error (gnodes (put i n st)) j = nth_error (gnodes st) j.
+Proof. intros H. rewrite put_nodes. now apply nth_error_upd_neq. Qed.
+Lemma rdd_of_put_neq i p n st : i <> p -> rdd_of (put i n st) p = rdd_of st p.
+Proof. intros H. unfold rdd_of. now rewrite nth_put_neq. Qed.
+Lemma rdd_of_add_log lg st p : rdd_of (add_log lg st) p = rdd_of st p.
+Proof. reflexivity. Qed.
+
+(* ---------- guards (link lemmas for the regenerated kernels) ---------- *)
+Lemma src_guard_spec t c : src_guard t c = (t <=? c). Proof. reflexivity. Qed.
+Lemma tr_guard_spec t c : tr_guard t c = (t <=? c). Proof. reflexivity. Qed.
+Lemma win_guard_spec t c : win_guard t c = (t <=? c). Proof. reflexivity. Qed.
+Lemma st_guard_spec t c : st_guard t c = (t <=? c). Proof. reflexivity. Qed.
+
+(* a node whose guard time has reached t is not stepped again *)
+Lemma step_blocked fuel g i t st nd ns :
+  nth_error g i = Some nd -> nth_error (gnodes st) i = Some ns -> t <= ntime ns ->
+  step (S fuel) g i t st = (st, None).
+Proof.
+  intros Hg Hs Ht. simpl. rewrite Hg, Hs.
+  assert (E : (t <=? ntime ns) = true) by (apply Z.leb_le; lia).
+  destruct nd; rewrite ?src_guard_spec, ?tr_guard_spec, ?win_guard_spec, ?st_guard_spec, E; reflexivity.
+Qed.
+
+(* the state of a node whose guard time has reached t is frozen, whatever is stepped at time t *)
+Lemma step_frozen fuel : forall g i t st j ns,
+  nth_error (gnodes st) j = Some ns -> t <= ntime ns ->
+  nth_error (gnodes (fst (step fuel g i t st))) j = Some ns.
+Proof.
+  induction fuel as [|fuel IH]; intros g i t st j ns Hj Ht; [exact Hj|].
+  cbn [step].
+  destruct (nth_error g i) as [nd|] eqn:Hg; [|exact Hj].
+  destruct (nth_error (gnodes st) i) as [nsi|] eqn:Hi; [|exact Hj].
+  assert (Hneq : (t <=? ntime nsi) = false -> i <> j).
+  { intros E Heq. subst j. rewrite Hi in Hj. inversion Hj; subst. apply Z.leb_gt in E. lia. }
+  destruct nd as [q|f p|w s p|u p].
+  - rewrite src_guard_spec. destruct (t <=? ntime nsi) eqn:E; cbn [fst]; auto.
+    rewrite nth_put_neq; auto.
+  - rewrite tr_guard_spec. destruct (t <=? ntime nsi) eqn:E; cbn [fst]; auto.
+    specialize (IH g p t st j ns Hj Ht).
+    destruct (step fuel g p t st) as [st1 e]. cbn [fst] in IH.
+    destruct e; cbn [fst]; auto.
+    destruct (nth_error (gnodes st1) i) as [ns1|]; cbn [fst]; auto.
+    destruct (trans_post f t (rdd_of st1 p) ns1) as [[n2 lg] e2]. cbn [fst].
+    unfold add_log; cbn [gnodes]. rewrite nth_put_neq; auto.
+  - rewrite win_guard_spec. destruct (t <=? ntime nsi) eqn:E; cbn [fst]; auto.
+    assert (Hj0 : nth_error (gnodes (put i (set_time t nsi) st)) j = Some ns) by (rewrite nth_put_neq; auto).
+    specialize (IH g p t _ j ns Hj0 Ht).
+    destruct (step fuel g p t (put i (set_time t nsi) st)) as [st1 e]. cbn [fst] in IH.
+    destruct e; cbn [fst]; auto.
+    destruct (nth_error (gnodes st1) i) as [ns1|]; cbn [fst]; auto.
+    destruct (window_post w s (rdd_of st1 p) ns1) as [n2 e2]. cbn [fst].
+    rewrite nth_put_neq; auto.
+  - rewrite st_guard_spec. destruct (t <=? ntime nsi) eqn:E; cbn [fst]; auto.
+    specialize (IH g p t st j ns Hj Ht).
+    destruct (step fuel g p t st) as [st1 e]. cbn [fst] in IH.
+    destruct e; cbn [fst]; auto.
+    destruct (nth_error (gnodes st1) i) as [ns1|]; cbn [fst]; auto.
+    destruct (stateful_post u t (rdd_of st1 p) ns1) as [n2 e2]. cbn [fst].
+    rewrite nth_put_neq; auto.
+Qed.
+
+Lemma tick_nodes_frozen fuel g t : forall is st j ns,
+  nth_error (gnodes st) j = Some ns -> t <= ntime ns ->
+  nth_error (gnodes (fst (tick_nodes fuel g is t st))) j = Some ns.
+Proof.
+  induction is as [|i is IH]; intros st j ns Hj Ht; cbn [tick_nodes fst]; auto.
+  pose proof (step_frozen fuel g i t st j ns Hj Ht) as H.
+  destruct (step fuel g i t st) as [st1 e]. cbn [fst] in H.
+  destruct e; cbn [fst]; auto.
+Qed.
+
+Lemma rdd_of_nth st p ns : nth_error (gnodes st) p = Some ns -> rdd_of st p = nrdd ns.
+Proof. intros H. unfold rdd_of. now rewrite H. Qed.
+
+Lemma guard_false t c : c < t -> (t <=? c) = false.
+Proof. intros. apply Z.leb_gt. lia. Qed.
+
+Lemma step_src_go fuel g i t st q ns :
+  nth_error g i = Some (Src q) -> nth_error (gnodes st) i = Some ns -> ntime ns < t ->
+  step (S fuel) g i t st = (put i (src_pop (set_time t ns)) st, None).
+Proof.
+  intros Hg Hs Ht. cbn [step]. rewrite Hg, Hs, src_guard_spec, guard_false; auto.
+Qed.
+
+Lemma step_trans_unfold fuel g i t st f p ns :
+  nth_error g i = Some (Trans f p) -> nth_error (gnodes st) i = Some ns -> ntime ns < t ->
+  step (S fuel) g i t st =
+    (let '(st1, e) := step fuel g p t st in
+     match e with
+     | Some _ => (st1, e)
+     | None => match nth_error (gnodes st1) i with
+               | Some ns1 => let '(n2, lg, e2) := trans_post f t (rdd_of st1 p) ns1 in
+                             (add_log lg (put i n2 st1), e2)
+               | None => (st1, Some "BadGraph"%string)
+               end
+     end).
+Proof.
+  intros Hg Hs Ht. cbn [step]. rewrite Hg, Hs, tr_guard_spec, guard_false by auto. reflexivity.
+Qed.
+
+Lemma step_window_unfold fuel g i t st w s p ns :
+  nth_error g i = Some (Window w s p) -> nth_error (gnodes st) i = Some ns -> ntime ns < t ->
+  step (S fuel) g i t st =
+    (let st0 := put i (set_time t ns) st in
+     let '(st1, e) := step fuel g p t st0 in
+     match e with
+     | Some _ => (st1, e)
+     | None => match nth_error (gnodes st1) i with
+               | Some ns1 => let '(n2, e2) := window_post w s (rdd_of st1 p) ns1 in (put i n2 st1, e2)
+               | None => (st1, Some "BadGraph"%string)
+               end
+     end).
+Proof.
+  intros Hg Hs Ht. cbn [step]. rewrite Hg, Hs, win_guard_spec, guard_false by auto. reflexivity.
+Qed.
+
+Lemma step_stateful_unfold fuel g i t st u p ns :
+  nth_error g i = Some (Stateful u p) -> nth_error (gnodes st) i = Some ns -> ntime ns < t ->
+  step (S fuel) g i t st =
+    (let '(st1, e) := step fuel g p t st in
+     match e with
+     | Some _ => (st1, e)
+     | None => match nth_error (gnodes st1) i with
+               | Some ns1 => let '(n2, e2) := stateful_post u t (rdd_of st1 p) ns1 in (put i n2 st1, e2)
+               | None => (st1, Some "BadGraph"%string)
+               end
+     end).
+Proof.
+  intros Hg Hs Ht. cbn [step]. rewrite Hg, Hs, st_guard_spec, guard_false by auto. reflexivity.
+Qed.
+
+(* stepping a node whose parent was already stepped at time t: the parent is not stepped again *)
+Lemma step_trans_go fuel g i t st f p ns ndp nsp :
+  nth_error g i = Some (Trans f p) -> nth_error (gnodes st) i = Some ns -> ntime ns < t ->
+  nth_error g p = Some ndp -> nth_error (gnodes st) p = Some nsp -> t <= ntime nsp ->
+  step (S (S fuel)) g i t st =
+    (let '(n2, lg, e2) := trans_post f t (nrdd nsp) ns in (add_log lg (put i n2 st), e2)).
+Proof.
+  intros Hg Hs Ht Hgp Hsp Htp.
+  rewrite (step_trans_unfold _ _ _ _ _ _ _ _ Hg Hs Ht).
+  rewrite (step_blocked fuel g p t st ndp nsp Hgp Hsp Htp).
+  cbv zeta. rewrite Hs, (rdd_of_nth _ _ _ Hsp). reflexivity.
+Qed.
+
+Lemma step_stateful_go fuel g i t st u p ns ndp nsp :
+  nth_error g i = Some (Stateful u p) -> nth_error (gnodes st) i = Some ns -> ntime ns < t ->
+  nth_error g p = Some ndp -> nth_error (gnodes st) p = Some nsp -> t <= ntime nsp ->
+  step (S (S fuel)) g i t st =
+    (let '(n2, e2) := stateful_post u t (nrdd nsp) ns in (put i n2 st, e2)).
+Proof.
+  intros Hg Hs Ht Hgp Hsp Htp.
+  rewrite (step_stateful_unfold _ _ _ _ _ _ _ _ Hg Hs Ht).
+  rewrite (step_blocked fuel g p t st ndp nsp Hgp Hsp Htp).
+  cbv zeta. rewrite Hs, (rdd_of_nth _ _ _ Hsp). reflexivity.
+Qed.
+
+Lemma step_window_go fuel g i t st w s p ns ndp nsp :
+  nth_error g i = Some (Window w s p) -> nth_error (gnodes st) i = Some ns -> ntime ns < t ->
+  nth_error g p = Some ndp -> nth_error (gnodes st) p = Some nsp -> t <= ntime nsp ->
+  step (S (S fuel)) g i t st =
+    (let '(n2, e2) := window_post w s (nrdd nsp) (set_time t ns) in (put i n2 st, e2)).
+Proof.
+  intros Hg Hs Ht Hgp Hsp Htp.
+  assert (Hip : i <> p).
+  { intros ->. rewrite Hs in Hsp. inversion Hsp; subst. lia. }
+  rewrite (step_window_unfold _ _ _ _ _ _ _ _ _ Hg Hs Ht). cbv zeta.
+  assert (Hsp0 : nth_error (gnodes (put i (set_time t ns) st)) p = Some nsp) by (rewrite nth_put_neq; auto).
+  rewrite (step_blocked fuel g p t _ ndp nsp Hgp Hsp0 Htp).
+  rewrite (nth_put_eq _ _ _ _ Hs), (rdd_of_nth _ _ _ Hsp0).
+  destruct (window_post w s (nrdd nsp) (set_time t ns)) as [n2 e2].
+  now rewrite put_put.
+Qed.
+
+(* ---------- strictly increasing tick times ---------- *)
+Fixpoint increasing (T : Z) (ts : list Z) : Prop :=
+  match ts with [] => True | t :: ts' => T < t /\ increasing t ts' end.
+
+Lemma last_cons {A} (x d : A) l : last (x :: l) d = last l x.
+Proof. revert x; induction l as [|y l IH]; intros x; [reflexivity|]. cbn [last] in *. destruct l; auto. Qed.
+
+Lemma increasing_app T a b : increasing T (a ++ b) <-> increasing T a /\ increasing (last a T) b.
+Proof.
+  revert T; induction a as [|x a IH]; intros T.
+  - cbn. tauto.
+  - rewrite last_cons. cbn [app increasing]. rewrite IH. tauto.
+Qed.
+
+(* ---------- runs ---------- *)
+Lemma run_ticks_cons g t ts st :
+  fst (run_ticks g (t :: ts) st) = fst (run_ticks g ts (fst (tick g t st))).
+Proof.
+  cbn [run_ticks]. destruct (tick g t st) as [st1 e]. cbn [fst].
+  destruct (run_ticks g ts st1) as [st2 es]. reflexivity.
+Qed.
+
+Lemma run_ticks_app g a : forall b st,
+  fst (run_ticks g (a ++ b) st) = fst (run_ticks g b (fst (run_ticks g a st))).
+Proof.
+  induction a as [|t a IH]; intros b st; [reflexivity|].
+  cbn [app]. rewrite !run_ticks_cons. apply IH.
+Qed.
+
+Lemma run_ticks_snoc g ts t st :
+  fst (run_ticks g (ts ++ [t]) st) = fst (tick g t (fst (run_ticks g ts st))).
+Proof. rewrite run_ticks_app, run_ticks_cons. reflexivity. Qed.
+
+
+(* ---------- general facts about step: the number of node states never changes; guard times only move to t ---------- *)
+Lemma put_length i n st : length (gnodes (put i n st)) = length (gnodes st).
+Proof. rewrite put_nodes. apply upd_length. Qed.
+
+Lemma step_length fuel : forall g i t st, length (gnodes (fst (step fuel g i t st))) = length (gnodes st).
+Proof.
+  induction fuel as [|fuel IH]; intros g i t st; [reflexivity|].
+  cbn [step].
+  destruct (nth_error g i) as [nd|]; [|reflexivity].
+  destruct (nth_error (gnodes st) i) as [nsi|]; [|reflexivity].
+  destruct nd as [q|f p|w s p|u p].
+  - destruct (src_guard t (ntime nsi)); cbn [fst]; auto. apply put_length.
+  - destruct (tr_guard t (ntime nsi)); cbn [fst]; auto.
+    specialize (IH g p t st). destruct (step fuel g p t st) as [st1 e]. cbn [fst] in IH.
+    destruct e; cbn [fst]; auto.
+    destruct (nth_error (gnodes st1) i) as [ns1|]; cbn [fst]; auto.
+    destruct (trans_post f t (rdd_of st1 p) ns1) as [[n2 lg] e2]. cbn [fst].
+    unfold add_log; cbn [gnodes]. now rewrite put_length.
+  - destruct (win_guard t (ntime nsi)); cbn [fst]; auto.
+    specialize (IH g p t (put i (set_time t nsi) st)).
+    destruct (step fuel g p t (put i (set_time t nsi) st)) as [st1 e]. cbn [fst] in IH.
+    rewrite put_length in IH.
+    destruct e; cbn [fst]; auto.
+    destruct (nth_error (gnodes st1) i) as [ns1|]; cbn [fst]; auto.
+    destruct (window_post w s (rdd_of st1 p) ns1) as [n2 e2]. cbn [fst]. now rewrite put_length.
+  - destruct (st_guard t (ntime nsi)); cbn [fst]; auto.
+    specialize (IH g p t st). destruct (step fuel g p t st) as [st1 e]. cbn [fst] in IH.
+    destruct e; cbn [fst]; auto.
+    destruct (nth_error (gnodes st1) i) as [ns1|]; cbn [fst]; auto.
+    destruct (stateful_post u t (rdd_of st1 p) ns1) as [n2 e2]. cbn [fst]. now rewrite put_length.
+Qed.
+
+Definition times_le (T : Z) (st : gstate) : Prop :=
+  forall i ns, nth_error (gnodes st) i = Some ns -> ntime ns <= T.
+
+Lemma times_le_put T i n st : times_le T st -> ntime n <= T -> times_le T (put i n st).
+Proof.
+  intros H Hn j ns Hj. destruct (Nat.eq_dec i j) as [->|Hne].
+  - destruct (nth_error (gnodes st) j) as [x|] eqn:E.
+    + rewrite (nth_put_eq _ _ _ _ E) in Hj. inversion Hj; subst; auto.
+    + rewrite put_nodes in Hj. assert (nth_error (upd j (fun _ => n) (gnodes st)) j = None).
+      { apply nth_error_None. rewrite upd_length. now apply nth_error_None. }
+      congruence.
+  - rewrite nth_put_neq in Hj by auto. eauto.
+Qed.
+
+Lemma window_post_time w s pr n : ntime (fst (window_post w s pr n)) = ntime n.
+Proof.
+  unfold window_post. destruct (win_skip _); cbn [fst]; [reflexivity|].
+  destruct (union _); reflexivity.
+Qed.
+Lemma stateful_post_time u t pr n : ntime (fst (stateful_post u t pr n)) = t.
+Proof.
+  unfold stateful_post. destruct pr; cbn [fst]; try reflexivity;
+  destruct (all_kv _); reflexivity.
+Qed.
+Lemma trans_post_time f t pr n : ntime (fst (fst (trans_post f t pr n))) = t.
+Proof. unfold trans_post. destruct (apply_tfun f t pr) as [[r lg]|e]; reflexivity. Qed.
+Lemma src_pop_time n : ntime (src_pop n) = ntime n.
+Proof. unfold src_pop. destruct (nqueue n); reflexivity. Qed.
+
+Lemma step_times_le fuel : forall g i t st, times_le t st -> times_le t (fst (step fuel g i t st)).
+Proof.
+  induction fuel as [|fuel IH]; intros g i t st H; [exact H|].
+  cbn [step].
+  destruct (nth_error g i) as [nd|]; [|exact H].
+  destruct (nth_error (gnodes st) i) as [nsi|]; [|exact H].
+  destruct nd as [q|f p|w s p|u p].
+  - destruct (src_guard t (ntime nsi)); cbn [fst]; auto.
+    apply times_le_put; auto. rewrite src_pop_time. cbn. lia.
+  - destruct (tr_guard t (ntime nsi)); cbn [fst]; auto.
+    specialize (IH g p t st H). destruct (step fuel g p t st) as [st1 e]. cbn [fst] in IH.
+    destruct e; cbn [fst]; auto.
+    destruct (nth_error (gnodes st1) i) as [ns1|]; cbn [fst]; auto.
+    pose proof (trans_post_time f t (rdd_of st1 p) ns1) as Hp.
+    destruct (trans_post f t (rdd_of st1 p) ns1) as [[n2 lg] e2]. cbn [fst] in *.
+    intros j ns Hj. unfold add_log in Hj; cbn [gnodes] in Hj.
+    revert j ns Hj. apply times_le_put; auto. lia.
+  - destruct (win_guard t (ntime nsi)); cbn [fst]; auto.
+    assert (H0 : times_le t (put i (set_time t nsi) st)) by (apply times_le_put; auto; cbn; lia).
+    specialize (IH g p t _ H0).
+    destruct (step fuel g p t (put i (set_time t nsi) st)) as [st1 e]. cbn [fst] in IH.
+    destruct e; cbn [fst]; auto.
+    destruct (nth_error (gnodes st1) i) as [ns1|] eqn:E1; cbn [fst]; auto.
+    pose proof (window_post_time w s (rdd_of st1 p) ns1) as Hp.
+    destruct (window_post w s (rdd_of st1 p) ns1) as [n2 e2]. cbn [fst] in *.
+    apply times_le_put; auto. rewrite Hp. eauto.
+  - destruct (st_guard t (ntime nsi)); cbn [fst]; auto.
+    specialize (IH g p t st H). destruct (step fuel g p t st) as [st1 e]. cbn [fst] in IH.
+    destruct e; cbn [fst]; auto.
+    destruct (nth_error (gnodes st1) i) as [ns1|]; cbn [fst]; auto.
+    pose proof (stateful_post_time u t (rdd_of st1 p) ns1) as Hp.
+    destruct (stateful_post u t (rdd_of st1 p) ns1) as [n2 e2]. cbn [fst] in *.
+    apply times_le_put; auto. lia.
+Qed.
+
+Lemma tick_nodes_length fuel g t : forall is st,
+  length (gnodes (fst (tick_nodes fuel g is t st))) = length (gnodes st).
+Proof.
+  induction is as [|i is IH]; intros st; [reflexivity|]. cbn [tick_nodes].
+  pose proof (step_length fuel g i t st) as H. destruct (step fuel g i t st) as [st1 e]. cbn [fst] in H.
+  destruct e; cbn [fst]; auto. now rewrite IH.
+Qed.
+
+Lemma tick_nodes_times_le fuel g t : forall is st,
+  times_le t st -> times_le t (fst (tick_nodes fuel g is t st)).
+Proof.
+  induction is as [|i is IH]; intros st H; [exact H|]. cbn [tick_nodes].
+  pose proof (step_times_le fuel g i t st H) as H1. destruct (step fuel g i t st) as [st1 e]. cbn [fst] in H1.
+  destruct e; cbn [fst]; auto.
+Qed.
+
+Lemma times_le_weaken T T' st : T <= T' -> times_le T st -> times_le T' st.
+Proof. intros HT H i ns Hi. specialize (H i ns Hi). lia. Qed.
+
+Lemma tick_nodes_app fuel g a : forall b t st,
+  tick_nodes fuel g (a ++ b) t st =
+  (let '(s1, e) := tick_nodes fuel g a t st in
+   match e with Some _ => (s1, e) | None => tick_nodes fuel g b t s1 end).
+Proof.
+  induction a as [|i a IH]; intros b t st; [reflexivity|].
+  cbn [app tick_nodes]. destruct (step fuel g i t st) as [s1 e]. destruct e; [reflexivity|]. apply IH.
+Qed.
+
+(* ---------- k capturing consumers of node p, stepped after p ---------- *)
+Definition obs_of (r : rdd) : option (list val) := match r with RNone => None | _ => Some (collect r) end.
+
+Lemma consumers_steps F g t p ndp nsp : forall k base j0 st,
+  (forall j, (j < k)%nat -> nth_error g (base + j) = Some (Trans (FCapture (Z.of_nat (j0 + j))) p)) ->
+  nth_error g p = Some ndp -> nth_error (gnodes st) p = Some nsp -> t <= ntime nsp ->
+  (forall j, (j < k)%nat -> exists ns, nth_error (gnodes st) (base + j) = Some ns /\ ntime ns < t) ->
+  exists st',
+    tick_nodes (S (S F)) g (seq base k) t st = (st', None) /\
+    glog st' = glog st ++ map (fun j => (t, Z.of_nat (j0 + j), obs_of (nrdd nsp))) (seq 0 k) /\
+    (forall i, (i < base \/ base + k <= i)%nat -> nth_error (gnodes st') i = nth_error (gnodes st) i) /\
+    length (gnodes st') = length (gnodes st).
+Proof.
+  induction k as [|k IH]; intros base j0 st Hg Hgp Hsp Htp Hns.
+  - exists st. cbn. rewrite app_nil_r. auto.
+  - destruct (Hns 0%nat ltac:(lia)) as (ns & Hb & Hbt). rewrite Nat.add_0_r in Hb.
+    pose proof (Hg 0%nat ltac:(lia)) as Hg0. rewrite !Nat.add_0_r in Hg0.
+    cbn [seq tick_nodes].
+    rewrite (step_trans_go F g base t st _ p ns ndp nsp Hg0 Hb Hbt Hgp Hsp Htp).
+    unfold trans_post. cbn [apply_tfun].
+    set (n2 := set_rdd RNone (set_time t ns)).
+    set (st1 := add_log _ (put base n2 st)).
+    assert (Hbp : base <> p).
+    { intros ->. rewrite Hb in Hsp. inversion Hsp; subst. lia. }
+    destruct (IH (S base) (S j0) st1) as (st' & E & Hlog & Hoth & Hlen).
+    + intros j Hj. specialize (Hg (S j) ltac:(lia)).
+      now rewrite <- !Nat.add_succ_comm in Hg.
+    + exact Hgp.
+    + unfold st1, add_log; cbn [gnodes]. rewrite nth_put_neq; auto.
+    + exact Htp.
+    + intros j Hj. destruct (Hns (S j) ltac:(lia)) as (ns' & H1 & H2).
+      exists ns'. split; auto. unfold st1, add_log; cbn [gnodes].
+      rewrite nth_put_neq by lia. now rewrite Nat.add_succ_comm.
+    + exists st'. split; [exact E|]. split; [|split].
+      * rewrite Hlog. unfold st1, add_log; cbn [glog]. rewrite put_log, <- app_assoc. f_equal.
+        cbn [seq map app]. rewrite Nat.add_0_r. f_equal.
+        rewrite <- seq_shift, map_map. apply map_ext. intros j. now rewrite Nat.add_succ_comm.
+      * intros i Hi. rewrite Hoth by lia. unfold st1, add_log; cbn [gnodes]. rewrite nth_put_neq by lia. reflexivity.
+      * rewrite Hlen. unfold st1, add_log; cbn [gnodes]. apply put_length.
+Qed.
